@@ -4228,7 +4228,7 @@ func valueOf(in ssa.Instruction) ssa.Value {
 
 func init() {
 	extend("C02", Rule{ID: "R02.17", Configs: "all", Run: ruleR02_17},
-		"(R02.17) sibling agreement in the code-length parser: the places where a zero run carries the cursor over the gap between the literal/length and the distance lengths (cursor += constant - count parameter) are guarded by the same condition - the same set of tests on the cursor against the count parameter and on which count table is current - in every run-length case; a case with its own boundary test (for example a positional one that misses a run starting exactly on the boundary) files distance lengths under literal/length slots.")
+		"(R02.17) sibling agreement in the code-length parser: the places where a run accounts for the gap between the literal/length and the distance lengths (cursor += constant - count parameter in the zero-run cases, bound -= constant - count parameter in the repeat case) decide 'still reading literal/length lengths' by the same test of which count table is current, and the zero-run cases carry the cursor over under the same test against the count parameter; a case with its own boundary test (for example a positional one that misses a run starting exactly on the boundary) files distance lengths under literal/length slots.")
 }
 
 func ruleR02_17(p *Program, r *Report) {
@@ -4263,21 +4263,27 @@ func ruleR02_17(p *Program, r *Report) {
 		return s, len(ps) > 0
 	}
 	type site struct {
-		at  ssa.Instruction
-		sig string
+		at       ssa.Instruction
+		carry    bool   // the cursor is carried over the gap (ADD); otherwise the gap is taken off a bound (SUB)
+		table    string // tests on which count table is current (pointer comparisons)
+		position string // tests of the cursor against the count parameter
 	}
 	var sites []site
 	for _, b := range fn.Blocks {
 		for _, in := range b.Instrs {
 			bo, ok := in.(*ssa.BinOp)
-			if !ok || bo.Op != token.ADD || intSize(bo.Type()) == 0 {
+			if !ok || (bo.Op != token.ADD && bo.Op != token.SUB) || intSize(bo.Type()) == 0 {
 				continue
 			}
-			// cursor += constant - count parameter: one operand is param-linear with coefficient -1 and no other atom
+			// cursor += constant - count parameter / bound -= constant - count parameter
 			gap := false
-			for _, o := range []ssa.Value{bo.X, bo.Y} {
+			ops := []ssa.Value{bo.X, bo.Y}
+			if bo.Op == token.SUB {
+				ops = []ssa.Value{bo.Y}
+			}
+			for _, o := range ops {
 				l := linearizeWith(o, true)
-				if len(l.terms) == 1 {
+				if len(l.terms) == 1 && l.k != 0 {
 					for t, c := range l.terms {
 						if strings.HasPrefix(t, "param:") && c == -1 {
 							gap = true
@@ -4288,7 +4294,7 @@ func ruleR02_17(p *Program, r *Report) {
 			if !gap {
 				continue
 			}
-			var sigs []string
+			var tbl, pos []string
 			for _, f := range dominatingFacts(bo) {
 				if f.Y == nil {
 					continue
@@ -4312,34 +4318,51 @@ func ruleR02_17(p *Program, r *Report) {
 						op = token.LEQ
 					}
 				}
-				sigs = append(sigs, op.String()+"("+sx+","+sy+")")
+				sg := op.String() + "(" + sx + "," + sy + ")"
+				if sx == "ptr" || sy == "ptr" {
+					tbl = append(tbl, sg)
+				} else {
+					pos = append(pos, sg)
+				}
 			}
-			sort.Strings(sigs)
-			sites = append(sites, site{bo, strings.Join(sigs, " & ")})
+			sort.Strings(tbl)
+			sort.Strings(pos)
+			sites = append(sites, site{bo, bo.Op == token.ADD, strings.Join(tbl, " & "), strings.Join(pos, " & ")})
 		}
 	}
 	if len(sites) < 2 {
-		r.Undecided("R02.17", shortFn(fn)+"|gap sites", p.Pos(fn.Pos()), "at least two run-length cases carry the cursor over the gap (cursor += constant - count parameter)", itoa(len(sites))+" found")
+		r.Undecided("R02.17", shortFn(fn)+"|gap sites", p.Pos(fn.Pos()), "at least two run-length cases account for the gap between the literal/length and the distance lengths (constant - count parameter)", itoa(len(sites))+" found")
 		return
 	}
-	// majority signature (with two sites: the first; a disagreement is reported at both)
-	count := map[string]int{}
-	for _, s := range sites {
-		count[s.sig]++
-	}
-	ref, best := "", 0
-	for sg, c := range count {
-		if c > best || (c == best && sg < ref) {
-			ref, best = sg, c
+	majority := func(get func(site) (string, bool)) (string, int, int) {
+		count := map[string]int{}
+		tot := 0
+		for _, s := range sites {
+			if v, ok := get(s); ok {
+				count[v]++
+				tot++
+			}
 		}
+		ref, best := "", 0
+		for sg, c := range count {
+			if c > best || (c == best && sg < ref) {
+				ref, best = sg, c
+			}
+		}
+		return ref, best, tot
 	}
+	tRef, tBest, tTot := majority(func(s site) (string, bool) { return s.table, true })
+	pRef, pBest, pTot := majority(func(s site) (string, bool) { return s.position, s.carry })
 	lab := newLabeler()
 	for _, s := range sites {
 		why := ""
-		if len(count) > 1 && (s.sig != ref || best*2 <= len(sites)) {
-			why = "this case carries the cursor over the gap under [" + s.sig + "], another under a different condition: the run-length cases must switch tables under the same test"
+		if s.table != tRef || tBest*2 <= tTot && tBest != tTot {
+			why = "this case decides whether the literal/length lengths are still being read by [" + s.table + "], the sibling cases by [" + tRef + "]: all run-length cases must use the same test of which count table is current"
 		}
-		r.Check(why == "", "R02.17", shortFn(fn)+"|"+lab.get("gap site"), p.InstrPos(s.at), "the cursor is carried over the literal/distance gap under the same condition as in the sibling cases ["+s.sig+"]", why)
+		if why == "" && s.carry && (s.position != pRef || pBest*2 <= pTot && pBest != pTot) {
+			why = "this case carries the cursor over the gap under [" + s.position + "], the sibling case under [" + pRef + "]"
+		}
+		r.Check(why == "", "R02.17", shortFn(fn)+"|"+lab.get("gap site"), p.InstrPos(s.at), "the gap between literal/length and distance lengths is accounted for under the same tests as in the sibling cases [table: "+s.table+"; position: "+s.position+"]", why)
 	}
 }
 
@@ -4816,4 +4839,861 @@ func ruleR04_13(p *Program, r *Report) {
 func init() {
 	extend("C18", Rule{ID: "R18.19", Configs: "asm", Run: ruleR18_19},
 		"(R18.19) in the assembly decode loop a conditional jump to the end-of-input exit that follows a comparison involving the bit counter is taken when the counter is the smaller operand (fewer bits buffered than the code needs), never the other way round.")
+}
+
+// ---------- R03.14: a partial Kraft sum is accepted only together with a second condition ----------
+
+func init() {
+	extend("C03", Rule{ID: "R03.14", Configs: "all", Run: ruleR03_14},
+		"(R03.14) wherever a code-space (Kraft) sum is compared for equality with a constant other than the whole code space and zero (the degenerate 'single code of length 1' case, which takes exactly half of the space), the equal edge leads to a further test on a value that is not the sum (the number of 1-bit codes): half of the code space is also what two 2-bit codes take, and such an incomplete code is what compress/flate rejects.")
+}
+
+func ruleR03_14(p *Program, r *Report) {
+	r.Expect("R03.14", 1)
+	sp := p.Pkg(flateRel)
+	whole := int64(1) << 15
+	n := 0
+	lab := newLabeler()
+	for _, fn := range p.Funcs() {
+		if fn.Pkg != sp {
+			continue
+		}
+		// the Kraft sums of this function: values compared with the whole code space
+		sums := map[ssa.Value]bool{}
+		for _, b := range fn.Blocks {
+			for _, in := range b.Instrs {
+				bo, ok := in.(*ssa.BinOp)
+				if !ok {
+					continue
+				}
+				switch bo.Op {
+				case token.GTR, token.GEQ, token.LSS, token.LEQ, token.EQL, token.NEQ:
+				default:
+					continue
+				}
+				if k, isK := constInt(bo.Y); isK && k == whole {
+					sums[stripConv(bo.X)] = true
+				} else if k, isK := constInt(bo.X); isK && k == whole {
+					sums[stripConv(bo.Y)] = true
+				}
+			}
+		}
+		if len(sums) == 0 {
+			continue
+		}
+		dependsOnSum := func(v ssa.Value) bool {
+			seen := map[ssa.Value]bool{}
+			var dep func(v ssa.Value, d int) bool
+			dep = func(v ssa.Value, d int) bool {
+				if v == nil || seen[v] || d > 8 {
+					return false
+				}
+				seen[v] = true
+				if sums[stripConv(v)] {
+					return true
+				}
+				if in, ok := v.(ssa.Instruction); ok {
+					for _, op := range in.Operands(nil) {
+						if *op != nil && dep(*op, d+1) {
+							return true
+						}
+					}
+				}
+				return false
+			}
+			return dep(v, 0)
+		}
+		for _, b := range fn.Blocks {
+			if len(b.Instrs) == 0 {
+				continue
+			}
+			iff, ok := b.Instrs[len(b.Instrs)-1].(*ssa.If)
+			if !ok {
+				continue
+			}
+			bo, ok := iff.Cond.(*ssa.BinOp)
+			if !ok || (bo.Op != token.EQL && bo.Op != token.NEQ) {
+				continue
+			}
+			var k int64
+			var isK bool
+			var x ssa.Value
+			if k, isK = constInt(bo.Y); isK {
+				x = bo.X
+			} else if k, isK = constInt(bo.X); isK {
+				x = bo.Y
+			}
+			if !isK || !sums[stripConv(x)] || k == 0 || k == whole {
+				continue
+			}
+			n++
+			eq := b.Succs[0]
+			if bo.Op == token.NEQ {
+				eq = b.Succs[1]
+			}
+			further := false
+			if len(eq.Instrs) > 0 && len(eq.Preds) == 1 {
+				if if2, ok := eq.Instrs[len(eq.Instrs)-1].(*ssa.If); ok && !dependsOnSum(if2.Cond) {
+					further = true
+				}
+				// the last operand of a && chain is a value, not a branch: a comparison computed on the equal edge
+				for _, in := range eq.Instrs {
+					if c2, ok := in.(*ssa.BinOp); ok && isBoolType(c2.Type()) && !dependsOnSum(c2) {
+						further = true
+					}
+				}
+			}
+			why := ""
+			if !further {
+				why = "a code-space sum of " + itoa(int(k)) + " (not the whole space) is accepted without a further test: every incomplete set of lengths with that sum passes, not only the single 1-bit code"
+			}
+			r.Check(further, "R03.14", shortFn(fn)+"|"+lab.get("partial sum "+itoa(int(k))), p.InstrPos(iff), "a partial code-space sum is accepted only together with a test on the number of codes", why)
+		}
+	}
+	// the same comparison used as a value (the last operand of an || / && chain, or returned directly)
+	for _, fn := range p.Funcs() {
+		if fn.Pkg != sp {
+			continue
+		}
+		sums := map[ssa.Value]bool{}
+		for _, b := range fn.Blocks {
+			for _, in := range b.Instrs {
+				if bo, ok := in.(*ssa.BinOp); ok {
+					switch bo.Op {
+					case token.GTR, token.GEQ, token.LSS, token.LEQ, token.EQL, token.NEQ:
+						if k, isK := constInt(bo.Y); isK && k == whole {
+							sums[stripConv(bo.X)] = true
+						} else if k, isK := constInt(bo.X); isK && k == whole {
+							sums[stripConv(bo.Y)] = true
+						}
+					}
+				}
+			}
+		}
+		if len(sums) == 0 {
+			continue
+		}
+		for _, b := range fn.Blocks {
+			for _, in := range b.Instrs {
+				bo, ok := in.(*ssa.BinOp)
+				if !ok || bo.Op != token.EQL {
+					continue
+				}
+				usedAsCond := false
+				if refs := bo.Referrers(); refs != nil {
+					for _, u := range *refs {
+						if _, isIf := u.(*ssa.If); isIf {
+							usedAsCond = true
+						}
+					}
+				}
+				if usedAsCond {
+					continue
+				}
+				var k int64
+				var isK bool
+				var x ssa.Value
+				if k, isK = constInt(bo.Y); isK {
+					x = bo.X
+				} else if k, isK = constInt(bo.X); isK {
+					x = bo.Y
+				}
+				if !isK || !sums[stripConv(x)] || k == 0 || k == whole {
+					continue
+				}
+				n++
+				guarded := false
+				for _, f := range dominatingFacts(bo) {
+					onSum := sums[stripConv(f.X)] || (f.Y != nil && sums[stripConv(f.Y)])
+					if !onSum {
+						guarded = true
+					}
+				}
+				why := ""
+				if !guarded {
+					why = "a code-space sum of " + itoa(int(k)) + " (not the whole space) is accepted on its own: every incomplete set of lengths with that sum passes, not only the single 1-bit code"
+				}
+				r.Check(guarded, "R03.14", shortFn(fn)+"|"+lab.get("partial sum "+itoa(int(k))), p.InstrPos(bo), "a partial code-space sum is accepted only together with a test on the number of codes", why)
+			}
+		}
+	}
+	if n == 0 {
+		r.OK("R03.14", "census", "-", "no equality test of a code-space sum with a partial value (only complete or empty codes are accepted)")
+	}
+}
+
+// ---------- R05.8 / R03.15: on the corrupt-input path the give-back is computed from a non-negative bit count ----------
+
+func init() {
+	const text = "in the inflater's step, every give-back (Discard) from which the construction of a CorruptInputError is reachable - the path taken when the decoder reported malformed input, possibly after reading past what it had - is preceded on all paths from the decoder call by a clamp of the bit count (a test bitsLen < 0 whose true edge stores 0): a negative count makes the give-back one byte too large and the source's io.EOF replaces the corrupt-input verdict."
+	extend("C05", Rule{ID: "R05.8", Configs: "all", Run: ruleR05_8}, "(R05.8) "+text)
+	extend("C03", Rule{ID: "R03.15", Configs: "all", Run: ruleR05_8}, "(R03.15) = R05.8.")
+}
+
+func ruleR05_8(p *Program, r *Report) {
+	id := "R05.8"
+	if r.Prop == "C03" {
+		id = "R03.15"
+	}
+	r.Expect(id, 1)
+	fn := p.Method(flateRel, "decompressor", "step")
+	dec := p.Method(flateRel, "decompressor", "decomperss")
+	if fn == nil || dec == nil {
+		r.Undecided(id, "anchors", "-", "decompressor.step and the decoder it calls exist", "not found")
+		return
+	}
+	isDiscard := func(in ssa.Instruction) bool {
+		c, ok := in.(ssa.CallInstruction)
+		if !ok {
+			return false
+		}
+		f := c.Common().StaticCallee()
+		return f != nil && isMethodOf(f, "bufio", "Reader", "Discard")
+	}
+	isClamp := func(in ssa.Instruction) bool {
+		iff, ok := in.(*ssa.If)
+		if !ok {
+			return false
+		}
+		bo, ok := iff.Cond.(*ssa.BinOp)
+		if !ok {
+			return false
+		}
+		neg := func(x, y ssa.Value, op token.Token) bool {
+			_, sel, isL := fieldLoad(stripConv(x))
+			k, isK := constInt(y)
+			if !isL || !strings.HasSuffix(sel, ".bitsLen") || !isK {
+				return false
+			}
+			return (op == token.LSS && k == 0) || (op == token.LEQ && k == -1)
+		}
+		okCond := neg(bo.X, bo.Y, bo.Op)
+		if !okCond {
+			switch bo.Op {
+			case token.GTR:
+				okCond = neg(bo.Y, bo.X, token.LSS)
+			case token.GEQ:
+				okCond = neg(bo.Y, bo.X, token.LEQ)
+			}
+		}
+		if !okCond {
+			return false
+		}
+		for _, in2 := range iff.Block().Succs[0].Instrs {
+			if st, ok := in2.(*ssa.Store); ok {
+				if _, sel := accessPath(st.Addr); strings.HasSuffix(sel, ".bitsLen") {
+					if k, isK := constInt(st.Val); isK && k == 0 {
+						return true
+					}
+				}
+			}
+		}
+		return false
+	}
+	// the decoder call and the corrupt-input construction in step
+	var decCall, corrupt ssa.Instruction
+	for _, b := range fn.Blocks {
+		for _, in := range b.Instrs {
+			if c, ok := in.(ssa.CallInstruction); ok && c.Common().StaticCallee() == dec {
+				decCall = in
+			}
+			if v, ok := in.(ssa.Value); ok {
+				var t types.Type
+				switch x := in.(type) {
+				case *ssa.Convert:
+					t = x.Type()
+				case *ssa.ChangeType:
+					t = x.Type()
+				case *ssa.MakeInterface:
+					t = x.X.Type()
+				}
+				_ = v
+				if t != nil && strings.HasSuffix(typeString(t), "CorruptInputError") {
+					corrupt = in
+				}
+			}
+		}
+	}
+	if decCall == nil || corrupt == nil {
+		r.Undecided(id, shortFn(fn)+"|anchors", p.Pos(fn.Pos()), "step calls the decoder and constructs a CorruptInputError", "not found")
+		return
+	}
+	n := 0
+	lab := newLabeler()
+	for _, b := range fn.Blocks {
+		for _, in := range b.Instrs {
+			site := false
+			var helper *ssa.Function
+			if isDiscard(in) {
+				site = true
+			} else if c, ok := in.(ssa.CallInstruction); ok {
+				if h := c.Common().StaticCallee(); h != nil && h.Blocks != nil && h.Pkg == fn.Pkg && h != dec && len(c.Common().Args) > 0 && c.Common().Args[0] == ssa.Value(fn.Params[0]) {
+					for _, hc := range allCalls(h) {
+						if isDiscard(hc) {
+							site, helper = true, h
+						}
+					}
+				}
+			}
+			if !site {
+				continue
+			}
+			if onErr, _, _ := (PathQuery{Start: in, Target: func(x ssa.Instruction) bool { return x == corrupt }}).Find(fn); !onErr {
+				continue
+			}
+			n++
+			open, _, _ := PathQuery{Start: decCall, Target: func(x ssa.Instruction) bool { return x == in }, Barrier: isClamp}.Find(fn)
+			if open && helper != nil {
+				// the clamp may sit in the helper, in front of its Discard
+				inner := false
+				for _, hc := range allCalls(helper) {
+					if isDiscard(hc) {
+						if o2, _, _ := (PathQuery{Target: func(x ssa.Instruction) bool { return x == ssa.Instruction(hc) }, Barrier: isClamp}).Find(helper); o2 {
+							inner = true
+						}
+					}
+				}
+				open = inner
+			}
+			why := ""
+			if open {
+				why = "the give-back at this site is reachable from the decoder call without passing a clamp of a negative bit count, and a CorruptInputError is constructed afterwards: after a parser that read past its input the give-back is one byte too large"
+			}
+			r.Check(!open, id, shortFn(fn)+"|"+lab.get("give-back on the corrupt-input path"), p.InstrPos(in), "on the corrupt-input path the give-back is computed after the bit count has been clamped at zero", why)
+		}
+	}
+	if n == 0 {
+		r.Undecided(id, shortFn(fn)+"|sites", p.Pos(fn.Pos()), "a give-back lies on the corrupt-input path of step", "none found")
+	}
+}
+
+// ---------- R02.18: a skipped copy of the fixed tables is coherent with every other writer of the tables ----------
+
+func init() {
+	extend("C02", Rule{ID: "R02.18", Configs: "all", Run: ruleR02_18},
+		"(R02.18) the set-up of a fixed-Huffman block installs both lookup tables on every path, or - if a path skips the copy - the skip is decided by receiver fields each of which is stored by every other function that writes the tables without going through this set-up (the dynamic set-up): a 'tables already hold the fixed code' flag that the dynamic set-up does not clear makes a fixed block after a dynamic one decode with the wrong tables.")
+	extend("C07", Rule{ID: "R07.5", Configs: "all", Run: ruleR02_18}, "(R07.5) = R02.18.")
+}
+
+func ruleR02_18(p *Program, r *Report) {
+	id := "R02.18"
+	if r.Prop == "C07" {
+		id = "R07.5"
+	}
+	r.Expect(id, 2)
+	fn := p.Method(flateRel, "inflate", "setupStaticHeader")
+	inf := p.Named(flateRel, "inflate")
+	if fn == nil || inf == nil {
+		r.Undecided(id, "anchors", "-", "inflate.setupStaticHeader exists", "not found")
+		return
+	}
+	recv := fn.Params[0]
+	// the table fields: receiver fields stored in fn from package-level variables
+	tables := map[string]bool{}
+	for _, b := range fn.Blocks {
+		for _, in := range b.Instrs {
+			st, ok := in.(*ssa.Store)
+			if !ok {
+				continue
+			}
+			root, sel := accessPath(st.Addr)
+			if root != ssa.Value(recv) || sel == "" {
+				continue
+			}
+			// the value is a package-level table or a part of one
+			fromGlobal := false
+			if ld, ok := st.Val.(*ssa.UnOp); ok && ld.Op == token.MUL {
+				if gr, _ := accessPath(ld.X); gr != nil {
+					if _, isG := gr.(*ssa.Global); isG {
+						fromGlobal = true
+					}
+				}
+			}
+			if fromGlobal && isAggregate(st.Val.Type()) {
+				tables["."+strings.SplitN(strings.TrimPrefix(sel, "."), ".", 2)[0]] = true
+			}
+		}
+	}
+	if len(tables) < 2 {
+		r.Undecided(id, shortFn(fn)+"|tables", p.Pos(fn.Pos()), "the fixed-block set-up copies the two precomputed tables into the decoder", itoa(len(tables))+" table stores from package variables found")
+		return
+	}
+	callsFn := map[*ssa.Function]bool{}
+	var reaches func(g *ssa.Function, d int) bool
+	reaches = func(g *ssa.Function, d int) bool {
+		if v, ok := callsFn[g]; ok {
+			return v
+		}
+		callsFn[g] = false
+		if d > 6 {
+			return false
+		}
+		for _, c := range allCalls(g) {
+			cs, _ := p.Callees(c)
+			for _, h := range cs {
+				if h == fn || reaches(h, d+1) {
+					callsFn[g] = true
+					return true
+				}
+			}
+		}
+		return false
+	}
+	eff := p.Effects()
+	for _, tsel := range sortedKeys(tables) {
+		key := shortFn(fn) + "|" + tsel
+		isTableStore := func(in ssa.Instruction) bool {
+			st, ok := in.(*ssa.Store)
+			if !ok {
+				return false
+			}
+			root, sel := accessPath(st.Addr)
+			return root == ssa.Value(recv) && (sel == tsel || strings.HasPrefix(sel, tsel+"."))
+		}
+		skip, _, _ := PathQuery{Target: func(x ssa.Instruction) bool { _, ok := x.(*ssa.Return); return ok }, Barrier: isTableStore}.Find(fn)
+		if !skip {
+			r.OK(id, key, p.Pos(fn.Pos()), "the fixed table "+tsel+" is installed on every path of the fixed-block set-up")
+			continue
+		}
+		// the receiver fields the skip is decided on
+		guards := map[string]bool{}
+		for _, b := range fn.Blocks {
+			if len(b.Instrs) == 0 {
+				continue
+			}
+			if iff, ok := b.Instrs[len(b.Instrs)-1].(*ssa.If); ok {
+				var walk func(v ssa.Value, d int)
+				walk = func(v ssa.Value, d int) {
+					if d > 4 || v == nil {
+						return
+					}
+					if root, sel, ok := fieldLoad(v); ok && root == ssa.Value(recv) {
+						guards[sel] = true
+						return
+					}
+					if in, ok := v.(ssa.Instruction); ok {
+						for _, op := range in.Operands(nil) {
+							if *op != nil {
+								walk(*op, d+1)
+							}
+						}
+					}
+				}
+				walk(iff.Cond, 0)
+			}
+		}
+		why := ""
+		if len(guards) == 0 {
+			why = "a path skips the copy of " + tsel + " and the skip is not decided by a field of the decoder"
+		}
+		for _, g := range sortedKeys(guards) {
+			for _, w := range p.Funcs() {
+				if w == fn || w.Pkg != fn.Pkg || reaches(w, 0) {
+					continue
+				}
+				writes := false
+				for i, prm := range w.Params {
+					if derefNamed(prm.Type()) != inf {
+						continue
+					}
+					for _, sel := range eff.ParamWrites(w, i) {
+						if sel == tsel || strings.HasPrefix(sel, tsel+".") || strings.HasPrefix(sel, tsel+"[") {
+							writes = true
+						}
+					}
+					if !writes {
+						continue
+					}
+					stores := false
+					for _, b := range w.Blocks {
+						for _, in := range b.Instrs {
+							if st, ok := in.(*ssa.Store); ok {
+								if root, sel := accessPath(st.Addr); root == ssa.Value(prm) && sel == g {
+									stores = true
+								}
+							}
+						}
+					}
+					if !stores && why == "" {
+						why = "the copy of " + tsel + " is skipped when " + g + " says so, but " + shortFn(w) + " rewrites the table and never stores " + g + ": a fixed block after it is decoded with that function's tables"
+					}
+				}
+			}
+		}
+		r.Check(why == "", id, key, p.Pos(fn.Pos()), "a skipped copy of "+tsel+" is decided by fields that every other writer of the table updates", why)
+	}
+}
+
+// ---------- R09.4: state changes in Accumulate are decided on what Accumulate itself does not advance ----------
+
+func init() {
+	extend("C09", Rule{ID: "R09.4", Configs: "all", Run: ruleR09_4},
+		"(R09.4) in every Accumulate, a branch whose taken side changes the compressor's state (the window slide: stores to receiver fields) is decided only on receiver fields that Accumulate does not store outside that side; the fill cursor, which advances with every call, is what it looks like at call boundaries - a slide decided on it happens at different stream positions for different Write partitions.")
+}
+
+func ruleR09_4(p *Program, r *Report) {
+	r.Expect("R09.4", 1)
+	n := 0
+	for _, tr := range p.CompressorTypes() {
+		fn := tr.Ops["Accumulate"]
+		if fn == nil {
+			continue
+		}
+		recv := fn.Params[0]
+		fieldOfStore := func(in ssa.Instruction) string {
+			st, ok := in.(*ssa.Store)
+			if !ok {
+				return ""
+			}
+			root, sel := accessPath(st.Addr)
+			if root != ssa.Value(recv) || sel == "" {
+				return ""
+			}
+			return strings.SplitN(strings.TrimPrefix(sel, "."), ".", 2)[0]
+		}
+		lab := newLabeler()
+		for _, b := range fn.Blocks {
+			if len(b.Instrs) == 0 {
+				continue
+			}
+			iff, ok := b.Instrs[len(b.Instrs)-1].(*ssa.If)
+			if !ok {
+				continue
+			}
+			// fields the condition reads (through the && / || chain leading to this branch as well)
+			reads := map[string]bool{}
+			var walk func(v ssa.Value, d int)
+			walk = func(v ssa.Value, d int) {
+				if d > 6 || v == nil {
+					return
+				}
+				if root, sel, ok := fieldLoad(v); ok && root == ssa.Value(recv) {
+					reads[strings.SplitN(strings.TrimPrefix(sel, "."), ".", 2)[0]] = true
+					return
+				}
+				if in, ok := v.(ssa.Instruction); ok {
+					for _, op := range in.Operands(nil) {
+						if *op != nil {
+							walk(*op, d+1)
+						}
+					}
+				}
+			}
+			walk(iff.Cond, 0)
+			for _, f := range dominatingFacts(iff) {
+				walk(f.X, 0)
+				if f.Y != nil {
+					walk(f.Y, 0)
+				}
+			}
+			for si, side := range b.Succs {
+				if len(side.Preds) != 1 {
+					continue
+				}
+				inSide := func(x *ssa.BasicBlock) bool { return side.Dominates(x) }
+				storedIn, storedOut := map[string]bool{}, map[string]bool{}
+				for _, b2 := range fn.Blocks {
+					for _, in := range b2.Instrs {
+						var fs []string
+						if f := fieldOfStore(in); f != "" {
+							fs = append(fs, f)
+						}
+						// a helper called on the same receiver stores what its effect summary says
+						if c, ok := in.(ssa.CallInstruction); ok {
+							if h := c.Common().StaticCallee(); h != nil && h.Blocks != nil && h.Pkg == fn.Pkg && len(c.Common().Args) > 0 && c.Common().Args[0] == ssa.Value(recv) {
+								for _, sel := range p.Effects().ParamWrites(h, 0) {
+									if seg := strings.SplitN(strings.TrimPrefix(sel, "."), ".", 2)[0]; seg != "" && !strings.ContainsAny(seg, "[^~") {
+										fs = append(fs, seg)
+									} else if i := strings.IndexAny(seg, "[^~"); i > 0 {
+										fs = append(fs, seg[:i])
+									}
+								}
+							}
+						}
+						for _, f := range fs {
+							if inSide(b2) {
+								storedIn[f] = true
+							} else {
+								storedOut[f] = true
+							}
+						}
+					}
+				}
+				if len(storedIn) == 0 {
+					continue // this side changes nothing (an early return, the buffer-full report)
+				}
+				n++
+				var clash []string
+				for f := range reads {
+					if storedOut[f] {
+						clash = append(clash, f)
+					}
+				}
+				sort.Strings(clash)
+				why := ""
+				if len(clash) > 0 {
+					why = "the branch that changes ." + strings.Join(sortedKeys(storedIn), ", .") + " is decided on ." + strings.Join(clash, ", .") + ", which Accumulate advances on every call: the change happens at a stream position that depends on how the data was split over Write calls"
+				}
+				_ = si
+				r.Check(why == "", "R09.4", shortFn(fn)+"|"+lab.get("state change"), p.InstrPos(iff), "a state change in Accumulate is decided on fields that do not move with the Write partition (reads ."+strings.Join(sortedKeys(reads), ", .")+")", why)
+			}
+		}
+	}
+	if n == 0 {
+		r.Undecided("R09.4", "sites", "-", "some Accumulate has a guarded state change (the window slide)", "none found")
+	}
+}
+
+// ---------- R14.8: the operation in progress reports the destination's failure ----------
+
+func init() {
+	extend("C14", Rule{ID: "R14.8", Configs: "all", Run: ruleR14_8},
+		"(R14.8) in Write, Flush and Close of every Writer, on the paths on which a destination call has failed (edges contradicting 'its error is non-nil' pruned) every return carries that error, the sticky field, or a value that cannot be nil: a failure that is recorded but answered with a nil error (a shadowed result variable, a break out of the loop) makes the caller believe the bytes were accepted.")
+}
+
+func ruleR14_8(p *Program, r *Report) {
+	r.Expect("R14.8", 8)
+	n := 0
+	for _, tr := range p.WriterTypes() {
+		for _, opn := range []string{"Write", "Flush", "Close"} {
+			fn := tr.Ops[opn]
+			if fn == nil {
+				continue
+			}
+			recv := fn.Params[0]
+			lab := newLabeler()
+			for _, c := range allCalls(fn) {
+				if ok, _ := p.isDstCall(c); !ok {
+					continue
+				}
+				if _, has := hasErrorResult(c); !has {
+					continue
+				}
+				n++
+				key := shortFn(fn) + "|" + lab.get(calleeLabel(c))
+				tk := NewErrTrack(p, fn, c, KindNonNil, tr)
+				var bad *ssa.Return
+				for _, b := range fn.Blocks {
+					for _, in := range b.Instrs {
+						ret, ok := in.(*ssa.Return)
+						if !ok || !tk.inReach(ret) {
+							continue
+						}
+						e := returnErr(ret)
+						if e == nil {
+							continue
+						}
+						if tk.Carriers[e] || (tr.Sticky != "" && isStickyLoad(e, recv, tr.Sticky)) || !p.mayBeNil(fn, e, ret) {
+							continue
+						}
+						// a phi: every incoming value on a failure path is judged
+						okPhi := false
+						if phi, isPhi := e.(*ssa.Phi); isPhi {
+							okPhi = true
+							for i, ed := range phi.Edges {
+								pred := phi.Block().Preds[i]
+								if len(pred.Instrs) == 0 || !tk.inReach(pred.Instrs[len(pred.Instrs)-1]) {
+									continue
+								}
+								if !(tk.Carriers[ed] || (tr.Sticky != "" && isStickyLoad(ed, recv, tr.Sticky)) || !isNil(ed) && !p.mayBeNil(fn, ed, pred.Instrs[len(pred.Instrs)-1])) {
+									okPhi = false
+								}
+							}
+						}
+						if !okPhi {
+							bad = ret
+						}
+					}
+				}
+				why := ""
+				if bad != nil {
+					why = "after this call has failed, the return at " + p.InstrPos(bad) + " can answer with a nil error"
+				}
+				r.Check(bad == nil, "R14.8", key, p.InstrPos(c), "when this destination call fails, the operation returns a non-nil error", why)
+			}
+		}
+	}
+	if n == 0 {
+		r.Undecided("R14.8", "sites", "-", "Writer operations call the destination", "none found")
+	}
+}
+
+// ---------- R19.6: the small-window constructor hands no matching level to a large-window encoder ----------
+
+func init() {
+	extend("C19", Rule{ID: "R19.6", Configs: "all", Run: ruleR19_6},
+		"(R19.6) in the 4 KiB-window constructor, a call that builds anything other than the 4 KiB compressor - the ordinary constructor, compress/flate's NewWriter - is reachable only for levels that emit no back-references (NoCompression, HuffmanOnly): the level values under which each such call can execute are enumerated from the dominating comparisons of the level (parameter or its DefaultCompression-mapped value) with constants, for every level in [-2, 9]; a range test such as level <= NoCompression also lets DefaultCompression (-1) through.")
+}
+
+func ruleR19_6(p *Program, r *Report) {
+	r.Expect("R19.6", 1)
+	var ctor *ssa.Function
+	for _, fn := range p.Funcs() {
+		if fn.Pkg == p.Pkg(deflRel) && strings.Contains(fn.Name(), "4KWindow") && fn.Signature.Recv() == nil {
+			ctor = fn
+		}
+	}
+	nd := p.Func(deflRel, "NewDynCompressor")
+	noComp, ok1 := constOf(p, deflRel, "NoCompression")
+	huff, ok2 := constOf(p, deflRel, "HuffmanOnly")
+	if ctor == nil || nd == nil || !ok1 || !ok2 {
+		r.Undecided("R19.6", "anchors", "-", "the 4 KiB-window constructor, NewDynCompressor and the level constants exist", "not found")
+		return
+	}
+	var level *ssa.Parameter
+	for _, prm := range ctor.Params {
+		if intSize(prm.Type()) > 0 {
+			level = prm
+		}
+	}
+	if level == nil {
+		r.Undecided("R19.6", shortFn(ctor)+"|level", p.Pos(ctor.Pos()), "the constructor has an integer level parameter", "not found")
+		return
+	}
+	// possible values of an SSA integer expression when the parameter is c
+	var vals func(v ssa.Value, c int64, d int) (map[int64]bool, bool)
+	vals = func(v ssa.Value, c int64, d int) (map[int64]bool, bool) {
+		if d > 4 {
+			return nil, false
+		}
+		v = stripConv(v)
+		if v == ssa.Value(level) {
+			return map[int64]bool{c: true}, true
+		}
+		if k, ok := constInt(v); ok {
+			return map[int64]bool{k: true}, true
+		}
+		if phi, ok := v.(*ssa.Phi); ok {
+			out := map[int64]bool{}
+			for _, e := range phi.Edges {
+				s, ok := vals(e, c, d+1)
+				if !ok {
+					return nil, false
+				}
+				for k := range s {
+					out[k] = true
+				}
+			}
+			return out, true
+		}
+		return nil, false
+	}
+	holds := func(f Fact, c int64) bool { // may the fact hold when the parameter is c? (unknown shapes: yes)
+		if f.Y == nil {
+			return true
+		}
+		xs, okx := vals(f.X, c, 0)
+		ys, oky := vals(f.Y, c, 0)
+		if !okx || !oky {
+			return true
+		}
+		for x := range xs {
+			for y := range ys {
+				var t bool
+				switch f.Op {
+				case token.EQL:
+					t = x == y
+				case token.NEQ:
+					t = x != y
+				case token.LSS:
+					t = x < y
+				case token.LEQ:
+					t = x <= y
+				case token.GTR:
+					t = x > y
+				case token.GEQ:
+					t = x >= y
+				default:
+					t = true
+				}
+				if t {
+					return true
+				}
+			}
+		}
+		return false
+	}
+	n := 0
+	lab := newLabeler()
+	for _, c := range allCalls(ctor) {
+		f := c.Common().StaticCallee()
+		if f == nil || f == nd {
+			continue
+		}
+		other := false
+		if f.Pkg != nil && f.Pkg == ctor.Pkg && strings.HasPrefix(f.Name(), "NewWriter") {
+			other = true // the ordinary constructor (32 KiB)
+		}
+		if isFunc(f, stdFlate, "NewWriter") || isFunc(f, stdFlate, "NewWriterDict") {
+			other = true
+		}
+		if !other {
+			continue
+		}
+		n++
+		var leak []string
+		facts := dominatingFacts(c)
+		for lv := int64(-2); lv <= 9; lv++ {
+			if lv == noComp || lv == huff {
+				continue
+			}
+			reach := true
+			for _, fc := range facts {
+				if !holds(fc, lv) {
+					reach = false
+				}
+			}
+			if reach {
+				leak = append(leak, itoa(int(lv)))
+			}
+		}
+		why := ""
+		if len(leak) > 0 {
+			why = "the call can execute for level " + strings.Join(leak, ", ") + ": a level that searches for matches gets an encoder whose window is not 4 KiB"
+		}
+		r.Check(len(leak) == 0, "R19.6", shortFn(ctor)+"|"+lab.get(calleeLabel(c)), p.InstrPos(c), "an encoder other than the 4 KiB compressor is built only for NoCompression and HuffmanOnly", why)
+	}
+	if n == 0 {
+		r.OK("R19.6", shortFn(ctor)+"|census", p.Pos(ctor.Pos()), "the 4 KiB-window constructor builds no other encoder")
+	}
+}
+
+// ---------- R19.7: only the constructors hand a stream to compress/flate's encoder ----------
+
+func init() {
+	extend("C19", Rule{ID: "R19.7", Configs: "all", Run: ruleR19_7},
+		"(R19.7) compress/flate's own encoder (NewWriter, NewWriterDict), whose window is always 32 KiB, is created only by the package's constructor functions, where the level decides; no method of a compressor creates one - a compressor built for a 4 KiB window that hands part of its input to the standard encoder emits distances beyond its window.")
+}
+
+func ruleR19_7(p *Program, r *Report) {
+	r.Expect("R19.7", 1)
+	n := 0
+	lab := newLabeler()
+	for _, fn := range p.Funcs() {
+		if isExamples(fn) || fn.Pkg == nil || !strings.HasPrefix(fn.Pkg.Pkg.Path(), modPath+"/compress/flate") {
+			continue
+		}
+		for _, c := range allCalls(fn) {
+			f := c.Common().StaticCallee()
+			if !(isFunc(f, stdFlate, "NewWriter") || isFunc(f, stdFlate, "NewWriterDict")) {
+				continue
+			}
+			n++
+			// a constructor function, or a private helper that only constructor functions reach
+			ok := true
+			for _, e := range p.apiEntries(fn) {
+				if !(e.Signature.Recv() == nil && strings.HasPrefix(e.Name(), "New")) {
+					ok = false
+				}
+			}
+			why := ""
+			if !ok {
+				why = shortFn(fn) + " is not a constructor: an encoder with a 32 KiB window is created behind the level and window the writer was built for"
+			}
+			r.Check(ok, "R19.7", shortFn(fn)+"|"+lab.get(calleeLabel(c)), p.InstrPos(c), "compress/flate's encoder is created by a constructor function", why)
+		}
+	}
+	if n == 0 {
+		r.Undecided("R19.7", "sites", "-", "the constructors delegate some levels to compress/flate", "no call of compress/flate.NewWriter found")
+	}
 }
